@@ -122,12 +122,25 @@ def headName : DL.HTerm → Option String
 /-- `build_aggregation` (1562): group-by = head variables in head order, aggregates in head order; the
     `Aggregate` node emits group columns then aggregate columns, and when that is not the head order a
     `Map` restoring the head order is put on top (the `Aggregate`'s schema then lists the emitted order). -/
+def isAggH : DL.HTerm → Bool
+  | .agg .. => true
+  | _ => false
+def isConstH : DL.HTerm → Bool
+  | .const _ => true
+  | _ => false
+def varOfH : DL.HTerm → Option String
+  | .var x => some x
+  | _ => none
+def aggOfH : DL.HTerm → Option (DL.AggF × String)
+  | .agg f x => some (f, x)
+  | _ => none
+
 def buildHead (input : Node) (hargs : List DL.HTerm) : Option Node :=
   let sch := schema input
-  if hargs.any (fun | .agg .. => true | _ => false) then
-    let gb := hargs.filterMap (fun | .var x => some x | _ => none)
-    let ag := hargs.filterMap (fun | .agg f x => some (f, x) | _ => none)
-    if hargs.any (fun | .const _ => true | _ => false) then none else
+  if hargs.any isAggH then
+    let gb := hargs.filterMap varOfH
+    let ag := hargs.filterMap aggOfH
+    if hargs.any isConstH then none else
     match optMapM (fun x => firstIdx x sch 0) gb, optMapM (fun (fx : DL.AggF × String) => (firstIdx fx.2 sch 0).map (fun c => (aggOf fx.1, c))) ag with
     | some g, some a =>
       let headSchema := hargs.filterMap headName
@@ -142,8 +155,12 @@ def buildHead (input : Node) (hargs : List DL.HTerm) : Option Node :=
     | some ps => some (.map input (ps.map (·.1)) (ps.map (·.2)))
     | none => none
 
+def isNegLit : DL.Lit → Bool
+  | .neg _ => true
+  | _ => false
+
 def buildRule (r : DL.Rule) : Option Node :=
-  if r.body.any (fun | .neg _ => true | _ => false) then none else
+  if r.body.any isNegLit then none else
   match posAtoms 0 r.body with
   | [] => none
   | (bi, a) :: rest =>
